@@ -173,9 +173,8 @@ class JsonRPC:
             raise exceptions.UnsupportedMediaType()
 
         try:
-            flask.request.encoding_errors = 'strict'  # type: ignore[attr-defined]
-            request_text = flask.request.get_data(as_text=True)
-        except UnicodeDecodeError as e:
+            request_text = flask.request.get_data().decode(flask.request.mimetype_params.get('charset', 'utf-8'))
+        except (UnicodeDecodeError, LookupError) as e:
             raise exceptions.BadRequest() from e
 
         response = dispatcher.dispatch(request_text)
